@@ -25,16 +25,19 @@ import (
 	"fmt"
 	"sort"
 	"io"
+	"net"
 	"net/netip"
 	"os"
 	"path/filepath"
 	"strconv"
 	"strings"
 	"testing"
+	"testing/synctest"
 	"time"
 	"unsafe"
 
 	"github.com/cilium/ebpf"
+	"github.com/daeuniverse/dae/common"
 	"github.com/daeuniverse/dae/common/consts"
 	"github.com/daeuniverse/dae/component/outbound/dialer"
 	"github.com/sirupsen/logrus"
@@ -580,8 +583,9 @@ func c03RandFlow(r *VRand, id int) *c03Flow {
 	}
 	f.l2lan = r.Chance(0.85)
 	f.l2wan = r.Chance(0.6)
-	f.cmac = [6]byte{2, 0, 0, 0, 1, byte(r.Intn(4))}
-	f.gmac = [6]byte{2, 0, 0, 0, 2, 1}
+	// six pairwise different bytes, so that any permutation inside a MAC packer changes the value
+	f.cmac = [6]byte{0x02, 0xa1, 0xb2, 0xc3, 0xd4, byte(0xe0 + r.Intn(4))}
+	f.gmac = [6]byte{0x06, 0x1a, 0x2b, 0x3c, 0x4d, 0x5e}
 	f.tos = byte(r.Intn(4)) << 5
 	if r.Chance(0.3) {
 		f.tos = byte(r.Intn(256))
@@ -680,6 +684,42 @@ func (g *c03Gen) retr(r *VRand, f *c03Flow, fwd bool) {
 	g.stats.Inc("retr")
 }
 
+// the control plane picks the flow's record up: TCP = head of handleConn, UDP = the ingress task with its per-endpoint
+// routing cache (endpoints of the pool appear / disappear; control-plane time advances by dt ms before the lookup)
+func (g *c03Gen) use(r *VRand, f *c03Flow, fwd bool) {
+	sip, dip, sp, dp := f.sip, f.dip, f.sport, f.dport
+	if !fwd {
+		sip, dip, sp, dp = dip, sip, dp, sp
+	}
+	l4 := 17
+	if f.tcp {
+		l4 = 6
+	}
+	if !f.tcp {
+		switch x := r.Intn(20); {
+		case x < 6:
+			g.c(fmt.Sprintf("ep add %s %d -", hex.EncodeToString(sip[:]), sp))
+			g.stats.Inc("ep.add.fullcone")
+		case x < 8:
+			g.c(fmt.Sprintf("ep add %s %d %s:%d", hex.EncodeToString(sip[:]), sp, hex.EncodeToString(dip[:]), dp))
+			g.stats.Inc("ep.add.symmetric")
+		case x < 9:
+			g.c(fmt.Sprintf("ep del %s %d -", hex.EncodeToString(sip[:]), sp))
+			g.stats.Inc("ep.del")
+		}
+	}
+	age := []uint64{0, 0, 0, 3000000000, 7000000000, 12000000000, 25000000000}[r.Intn(7)]
+	n := 1
+	if !f.tcp && r.Chance(0.5) {
+		n = 2 + r.Intn(2) // a burst of datagrams: the later ones may be served from the cache
+	}
+	for i := 0; i < n; i++ {
+		dt := []int{0, 0, 1, 100, 150, 299, 300, 301, 500, 2000}[r.Intn(10)]
+		g.c(fmt.Sprintf("use %d %s %d %s %d %d %d", l4, hex.EncodeToString(sip[:]), sp, hex.EncodeToString(dip[:]), dp, age, dt))
+		g.stats.Inc(fmt.Sprintf("use.l4-%d", l4))
+	}
+}
+
 // one janitor round (conn-state + hand-off), steady-state or under pressure, `age` ns from now
 func (g *c03Gen) jan(r *VRand) {
 	age := []uint64{0, 0, 2000000000, 30000000000, 61000000000, 90000000000, 130000000000}[r.Intn(7)]
@@ -757,6 +797,10 @@ func (g *c03Gen) scenario(r *VRand, rp *VRand, id int, tag string, steps int) {
 				g.c(fmt.Sprintf("alive %d %d", g.aliveKey(ob, udp, v6), v))
 			}
 		}
+	}
+	if r.Chance(0.12) {
+		g.c("scope 1") // routing depends on packet metadata: the per-endpoint routing cache must not be consulted
+		g.stats.Inc("scenario.scope-sensitive")
 	}
 	prog := c03RandProgram(r, flows, g.stats)
 	domIdx := prog.domIdx
@@ -933,9 +977,49 @@ func (g *c03Gen) scenario(r *VRand, rp *VRand, id int, tag string, steps int) {
 					g.stats.Inc("socket." + kind)
 				}
 				g.frameOp(hop, proto, fr, lin, pull, mark, cookie, sk)
+				if (hop.hook == "li" || hop.hook == "we") && r.Chance(0.3) {
+					// the skb as the hook left it arrives on dae0peer (meaningful after a redirect; otherwise it must be shot)
+					g.c(fmt.Sprintf("peer %d", []int{7, 7, 7, 7, 5, 2, 0, 3, 6}[r.Intn(9)]))
+					g.stats.Inc("op.peer")
+				}
 				if (hop.hook == "li" || hop.hook == "we") && r.Chance(0.35) {
 					g.retr(r, f, fwd)
 				}
+				if (hop.hook == "li" || hop.hook == "we") && (f.tcp || (f.sport != 53 && f.dport != 53)) && r.Chance(0.3) {
+					g.use(r, f, fwd)
+				}
+			}
+			if r.Chance(0.12) {
+				// dae answers a captured client: the reply enters tproxy_dae0_ingress, which must find the
+				// redirect_track entry of the address pair and send the frame back where the flow came from
+				back := !fwd
+				kind := "reply"
+				if r.Chance(0.15) {
+					back = fwd
+					kind = "same-direction"
+				}
+				var dm *c03Mut
+				switch r.Intn(12) {
+				case 0:
+					dm = &c03Mut{truncate: []int{0, 10, 14, 20, 33, 34, 40, 53, 54}[r.Intn(9)]}
+					kind = "truncated"
+				case 1:
+					dm = &c03Mut{truncate: -1, ethProto: 0x0806}
+					kind = "ethproto"
+				}
+				dfr := c03Frame(f, back, flags, true, dm)
+				dproto := f.skbProto()
+				if tag == "S" && r.Chance(0.05) {
+					dproto = []int{c03EthIP, c03EthIPv6, 0x0806}[r.Intn(3)]
+					kind = "skbproto-random"
+				}
+				dlin, dpull := c03Path(rp, len(dfr), g.stats)
+				dhx := hex.EncodeToString(dfr)
+				if len(dfr) == 0 {
+					dhx = "-"
+				}
+				g.c(fmt.Sprintf("d0 %d %d %d %s", dproto, dlin, dpull, dhx))
+				g.stats.Inc("d0." + kind)
 			}
 		case x < 76:
 			g.advance(r)
@@ -1094,6 +1178,10 @@ func c03GoConst(name string) string {
 		"sizeof_pid_pname":                        unsafe.Sizeof(bpfPidPname{}),
 		"OUTBOUND_DIRECT":                         uintptr(consts.OutboundDirect),
 		"OUTBOUND_BLOCK":                          uintptr(consts.OutboundBlock),
+		"UdpRoutingResultCacheTtl":                uintptr(UdpRoutingResultCacheTtl.Nanoseconds()),
+		"tcpRoutingLookupRetryAttempts":           uintptr(tcpRoutingLookupRetryAttempts),
+		"tcpRoutingLookupRetryDelay":              uintptr(tcpRoutingLookupRetryDelay.Nanoseconds()),
+		"OutboundControlPlaneRouting":             uintptr(consts.OutboundControlPlaneRouting),
 		"OUTBOUND_MUST_RULES":                     uintptr(consts.OutboundMustRules),
 		"OUTBOUND_CONTROL_PLANE_ROUTING":          uintptr(consts.OutboundControlPlaneRouting),
 		"routingHandoffTimeout":                   uintptr(routingHandoffTimeout.Nanoseconds()),
@@ -1125,6 +1213,7 @@ var c03ConstNames = []string{
 	"sizeof_routing_handoff_entry", "off_routing_handoff_entry_last_seen_ns", "off_routing_handoff_entry_result",
 	"sizeof_redirect_tuple", "sizeof_redirect_entry", "sizeof_pid_pname", "connectivity_max_entries",
 	"routingHandoffTimeout", "L4ProtoType_TCP", "L4ProtoType_UDP", "IpVersionType_4", "IpVersionType_6",
+	"UdpRoutingResultCacheTtl", "tcpRoutingLookupRetryAttempts", "tcpRoutingLookupRetryDelay", "OutboundControlPlaneRouting",
 }
 
 // ------------------------------------------------------------------ known witnesses (replayed on every run)
@@ -1183,6 +1272,45 @@ func (g *c03Gen) witnesses() {
 	rsyn := c03Frame(&t, false, c03FlagSYN, true, nil)
 	g.frameOp(c03Hop{"wi", true, 2, 2}, c03EthIP, rsyn, len(rsyn), 1, 0, 0, "-")
 	g.frameOp(li, c03EthIP, ack, len(ack), 1, 0, 0, "-")
+	// W5: the three MAC packers at the route() callers (LAN ingress, WAN-egress TCP, WAN-egress UDP).  One rule
+	// "source MAC = M -> block", fallback direct; M has six different bytes.  A new flow from M must be dropped, a
+	// new flow from any MAC that differs from M in exactly one byte must pass: stated on the real program's verdicts.
+	setup("mac-packers")
+	{
+		base := [6]byte{0x02, 0xa1, 0xb2, 0xc3, 0xd4, 0xe5}
+		var m16 [16]byte
+		copy(m16[10:], base[:])
+		macRule := c03Rule{conds: []c03Cond{{typ: consts.MatchType_Mac, alts: [][16]byte{c03U32Val(7)}}}, outbound: uint8(consts.OutboundBlock)}
+		fbRule := c03Rule{conds: []c03Cond{{typ: consts.MatchType_Fallback, alts: [][16]byte{{}}}}, outbound: 0}
+		g.c("lpm 7 1 " + c03LpmKey(128, m16))
+		g.emitProgram(c03Lower([]c03Rule{macRule, fbRule}))
+		sport := uint16(41000)
+		for _, caller := range []struct {
+			hop c03Hop
+			tcp bool
+		}{{li, true}, {we, true}, {we, false}} {
+			for j := 0; j <= 6; j++ {
+				mf := *app
+				mf.tcp = caller.tcp
+				mf.sport = sport
+				sport++
+				mf.cmac = base
+				if j > 0 {
+					mf.cmac[j-1] ^= 0x08
+				}
+				fl := byte(0)
+				if caller.tcp {
+					fl = c03FlagSYN
+				}
+				mfr := c03Frame(&mf, true, fl, true, nil)
+				ck := uint64(0)
+				if caller.hop.hook == "we" {
+					ck = 5
+				}
+				g.frameOp(caller.hop, c03EthIP, mfr, len(mfr), 1, 0, ck, "-")
+			}
+		}
+	}
 	// W3 (fixed by e3060cb): SYN-ACK parsed by both paths; reply of a WAN-opened connection
 	setup("synack-parse-paths")
 	sa := c03Frame(&t, true, c03FlagSYN|c03FlagACK, true, nil)
@@ -1339,6 +1467,9 @@ func TestVerifC03Retr(t *testing.T) {
 		defer connMap.Close()
 		defer hoMap.Close()
 	}
+	// The whole pass runs in one synctest bubble: time.Now / time.Since / timers are virtual there (the per-endpoint
+	// routing cache and handleConn's retry timers use them), CLOCK_MONOTONIC (hand-off expiry, janitors) stays real.
+	synctest.Test(t, func(t *testing.T) {
 	core := &controlPlaneCore{}
 	if kernel {
 		objs := &bpfObjects{}
@@ -1346,6 +1477,9 @@ func TestVerifC03Retr(t *testing.T) {
 		objs.RoutingHandoffMap = hoMap
 		core.bpf.Store(objs)
 	}
+	cons := &c03Consumer{cp: &ControlPlane{core: core, log: logrus.New()}, eps: map[UdpEndpointKey]bool{}}
+	cons.cp.log.SetOutput(io.Discard)
+	defer cons.reset()
 	var loadedConn, loadedHo map[string][]byte
 	for _, name := range streams {
 		if name == "" {
@@ -1379,6 +1513,22 @@ func TestVerifC03Retr(t *testing.T) {
 					continue
 				}
 				ans := VRecover(func() string { return c03Janitor(op, cl, core, connMap, hoMap, &loadedConn, &loadedHo, stats) })
+				w.WriteString(ans + "\n")
+				continue
+			}
+			switch {
+			case op == "reset":
+				cons.reset()
+			case strings.HasPrefix(op, "scope "):
+				cons.cp.udpRouteScopeSensitive = op != "scope 0"
+			case strings.HasPrefix(op, "ep "):
+				cons.ep(op)
+			case strings.HasPrefix(op, "use "):
+				if !kernel {
+					w.WriteString("use=unavailable\n")
+					continue
+				}
+				ans := VRecover(func() string { return cons.use(op, cl, connMap, hoMap, &loadedConn, &loadedHo, stats) })
 				w.WriteString(ans + "\n")
 				continue
 			}
@@ -1500,7 +1650,202 @@ func TestVerifC03Retr(t *testing.T) {
 		fo.Close()
 		fc.Close()
 	}
+	})
 	stats.Write("c03retr")
+}
+
+// ---- the userspace consumers of the record (regenerated glue: verifC03TcpRecord / verifC03UdpRecord)
+
+type c03Consumer struct {
+	cp  *ControlPlane
+	eps map[UdpEndpointKey]bool
+}
+
+func (c *c03Consumer) setEndpoint(k UdpEndpointKey, present bool) {
+	shard := DefaultUdpEndpointPool.shardFor(k)
+	shard.mu.Lock()
+	if present {
+		shard.pool[k] = &UdpEndpoint{}
+		c.eps[k] = true
+	} else {
+		delete(shard.pool, k)
+		delete(c.eps, k)
+	}
+	shard.mu.Unlock()
+}
+
+func (c *c03Consumer) reset() {
+	for k := range c.eps {
+		c.setEndpoint(k, false)
+	}
+	c.cp.udpRouteScopeSensitive = false
+}
+
+func c03AddrPort(hx string, port string) (netip.AddrPort, bool) {
+	b, err := hex.DecodeString(hx)
+	p, err2 := strconv.Atoi(port)
+	if err != nil || err2 != nil || len(b) != 16 {
+		return netip.AddrPort{}, false
+	}
+	var a [16]byte
+	copy(a[:], b)
+	return netip.AddrPortFrom(netip.AddrFrom16(a), uint16(p)), true
+}
+
+// ep add|del <sip> <sport> <-|dip:dport>: an endpoint under the flow's full-cone (source only) or symmetric key, built
+// by the production key functions
+func (c *c03Consumer) ep(op string) {
+	tk := strings.Fields(op)
+	if len(tk) != 5 {
+		return
+	}
+	src, ok := c03AddrPort(tk[2], tk[3])
+	if !ok {
+		return
+	}
+	dst := netip.AddrPortFrom(netip.IPv4Unspecified(), 1)
+	if tk[4] != "-" {
+		parts := strings.Split(tk[4], ":")
+		if len(parts) != 2 {
+			return
+		}
+		if dst, ok = c03AddrPort(parts[0], parts[1]); !ok {
+			return
+		}
+	}
+	fd := ClassifyUdpFlow(common.ConvergeAddrPort(src), common.ConvergeAddrPort(dst), []byte("data"))
+	k := fd.FullConeNatEndpointKey()
+	if tk[4] != "-" {
+		k = fd.SymmetricNatEndpointKey()
+	}
+	c.setEndpoint(k, tk[1] == "add")
+}
+
+type c03FakeConn struct {
+	net.Conn
+	local, remote net.Addr
+}
+
+func (f *c03FakeConn) LocalAddr() net.Addr  { return f.local }
+func (f *c03FakeConn) RemoteAddr() net.Addr { return f.remote }
+func (f *c03FakeConn) Close() error         { return nil }
+
+func c03RecString(rr *bpfRoutingResult) string {
+	return fmt.Sprintf("%d:%d:%d:%d:%s:%s:%d", rr.Outbound, rr.Mark, rr.Must, rr.Dscp, hex.EncodeToString(rr.Mac[:]),
+		hex.EncodeToString(rr.Pname[:]), rr.Pid)
+}
+
+// use <l4> <sip> <sport> <dip> <dport> <age> <dtms>: `dtms` ms of control-plane time pass, then the regenerated head of
+// handleConn (TCP) / UDP ingress task runs against the bytes the TC programs stored (loaded into the kernel maps)
+func (c *c03Consumer) use(op, cl string, connMap, hoMap *ebpf.Map, loadedConn, loadedHo *map[string][]byte, stats *VStats) string {
+	tk := strings.Fields(op)
+	cf := strings.Fields(cl)
+	if len(tk) != 8 || len(cf) != 3 || !strings.HasPrefix(cf[2], "now=") {
+		return "use=bad-op"
+	}
+	l4, _ := strconv.Atoi(tk[1])
+	age, _ := strconv.ParseUint(tk[6], 10, 64)
+	dtms, _ := strconv.Atoi(tk[7])
+	src, ok1 := c03AddrPort(tk[2], tk[3])
+	dst, ok2 := c03AddrPort(tk[4], tk[5])
+	conn, e1 := c03ParseDump(cf[0])
+	ho, e2 := c03ParseDump(cf[1])
+	if !ok1 || !ok2 || e1 != nil || e2 != nil {
+		return "use=bad-dump"
+	}
+	shimNow, _ := strconv.ParseUint(cf[2][4:], 10, 64)
+	key := bpfTuplesKeyFromAddrPorts(src, dst, uint8(l4))
+	keyHex := hex.EncodeToString(unsafe.Slice((*byte)(unsafe.Pointer(&key)), unsafe.Sizeof(key)))
+	hoAge, hoPresent := int64(0), false
+	if hv, ok := ho[keyHex]; ok && len(hv) >= 8 {
+		hoAge, hoPresent = int64(shimNow+age-binary.NativeEndian.Uint64(hv)), true
+	}
+	time.Sleep(time.Duration(dtms) * time.Millisecond) // virtual
+	realNow, err := monotonicNowNano()
+	if err != nil {
+		return "use=error:clock"
+	}
+	if *loadedConn == nil {
+		*loadedConn, *loadedHo = map[string][]byte{}, map[string][]byte{}
+	}
+	load := func(m *ebpf.Map, loaded *map[string][]byte, want map[string][]byte, rebase bool) error {
+		for k := range *loaded {
+			if _, ok := want[k]; !ok {
+				kb, _ := hex.DecodeString(k)
+				if err := m.Delete(kb); err != nil && !stderrors.Is(err, ebpf.ErrKeyNotExist) {
+					return err
+				}
+			}
+		}
+		for k, v := range want {
+			kb, _ := hex.DecodeString(k)
+			vv := append([]byte{}, v...)
+			if rebase && len(vv) >= 8 {
+				if last := binary.NativeEndian.Uint64(vv); last != 0 {
+					binary.NativeEndian.PutUint64(vv, c03Rebase(realNow, shimNow+age-last))
+				}
+			}
+			if err := m.Put(kb, vv); err != nil {
+				return err
+			}
+		}
+		*loaded = want
+		return nil
+	}
+	if err := load(connMap, loadedConn, conn, false); err != nil {
+		return "use=error:load-conn:" + err.Error()
+	}
+	if err := load(hoMap, loadedHo, ho, true); err != nil {
+		return "use=error:load-ho:" + err.Error()
+	}
+	// both spellings of an IPv4 peer reach the consumers (the listener is dual-stack): mapped for odd source ports
+	spell := func(ap netip.AddrPort) netip.AddrPort {
+		if ap.Addr().Is4In6() && ap.Port()%2 == 0 {
+			return netip.AddrPortFrom(ap.Addr().Unmap(), ap.Port())
+		}
+		return ap
+	}
+	t0 := time.Now()
+	var ans string
+	if l4 == 6 {
+		fc := &c03FakeConn{remote: net.TCPAddrFromAddrPort(spell(src)), local: net.TCPAddrFromAddrPort(spell(dst))}
+		rr, err := c.cp.verifC03TcpRecord(nil, fc)
+		if err != nil || rr == nil {
+			ans = fmt.Sprintf("use=error:%v", err)
+		} else {
+			ans = fmt.Sprintf("use=%s fresh=- el=%d", c03RecString(rr), time.Since(t0).Nanoseconds())
+		}
+		stats.Inc("use.tcp")
+	} else {
+		rr, fresh, delivered := c.cp.verifC03UdpRecord(spell(src), common.ConvergeAddrPort(dst), []byte("data"))
+		switch {
+		case !delivered || rr == nil:
+			ans = "use=dropped"
+		default:
+			ans = fmt.Sprintf("use=%s fresh=%d el=%d", c03RecString(rr), c03B2u(fresh), time.Since(t0).Nanoseconds())
+			if !fresh && rr.Outbound != uint8(consts.OutboundControlPlaneRouting) {
+				stats.Inc("use.udp.cache-hit")
+			}
+		}
+		stats.Inc("use.udp")
+	}
+	// the lookup(s) deleted an expired hand-off entry: keep the bookkeeping in step
+	if _, ok := (*loadedHo)[keyHex]; ok {
+		var probe bpfRoutingHandoffEntry
+		kb, _ := hex.DecodeString(keyHex)
+		if hoMap.Lookup(kb, &probe) != nil {
+			delete(*loadedHo, keyHex)
+		}
+	}
+	if realNow2, e2 := monotonicNowNano(); e2 == nil && hoPresent {
+		stall := int64(realNow2-realNow) + 20000000
+		lim := routingHandoffTimeout.Nanoseconds()
+		if hoAge > lim-stall && hoAge <= lim+20000000 {
+			stats.Inc("use.skipped-boundary")
+			return "use=skip-boundary"
+		}
+	}
+	return ans
 }
 
 // c03Janitor answers a `jan <aggressive> <age>` op: the raw conn_state / hand-off entries the kernel program stored
